@@ -19,6 +19,7 @@ import (
 	"path/filepath"
 	"sort"
 	"strings"
+	"sync"
 	"testing"
 
 	"github.com/semihalev/sdns/middleware/resolver"
@@ -60,6 +61,7 @@ type behaviour struct {
 }
 
 type script struct {
+	Name       string      `json:"name"`
 	Model      tagModel    `json:"model"`
 	Configured []string    `json:"configured"`
 	AgeCap     int         `json:"ageCap"`
@@ -98,12 +100,12 @@ func sameList(a, b []string) bool {
 // oracle: the ghost variables of RFC5011.tla, advanced by the driver from
 // what it published and from what it observed, never from the code's files.
 type oracle struct {
-	seen, miss               map[string]int
-	earned, revAcc, revVol   set
-	sawUnreadable            bool
-	sawStateCorrupt          bool
-	sawTombCorrupt           bool
-	failClosedSince          bool
+	seen, miss             map[string]int
+	earned, revAcc, revVol set
+	sawUnreadable          bool
+	sawStateCorrupt        bool
+	sawTombCorrupt         bool
+	failClosedSince        bool
 }
 
 func newOracle(keys []string) *oracle {
@@ -128,16 +130,16 @@ func (o *oracle) age(d int) {
 }
 
 type traceEvent struct {
-	Ev    string   `json:"ev"` // reset | run | restart
-	B     string   `json:"b,omitempty"`
-	D     int      `json:"d"`
-	RF    string   `json:"rf"`
-	Fetch bool     `json:"fetch"`           // the DNSKEY RRset was delivered
-	Z     *zonePub `json:"z,omitempty"`     // what was delivered
-	Win   map[string]string `json:"win,omitempty"` // model tag -> key kept in kskFetched for a contested tag
-	TombFail  bool `json:"tombFail"`
-	StateFail bool `json:"stateFail"`
-	Crash int      `json:"crash"`
+	Ev        string            `json:"ev"` // reset | run | restart
+	B         string            `json:"b,omitempty"`
+	D         int               `json:"d"`
+	RF        string            `json:"rf"`
+	Fetch     bool              `json:"fetch"`         // the DNSKEY RRset was delivered
+	Z         *zonePub          `json:"z,omitempty"`   // what was delivered
+	Win       map[string]string `json:"win,omitempty"` // model tag -> key kept in kskFetched for a contested tag
+	TombFail  bool              `json:"tombFail"`
+	StateFail bool              `json:"stateFail"`
+	Crash     int               `json:"crash"`
 	// observations
 	AtFetch []string `json:"atFetch"` // rootKeys seen by the root server when the query arrived
 	Fetched bool     `json:"fetched"` // a query arrived
@@ -161,35 +163,65 @@ type runner struct {
 }
 
 func TestReplay(t *testing.T) {
-	var sc script
-	vh.Input(t, &sc)
+	var in struct {
+		script
+		Suites []script `json:"suites"`
+	}
+	vh.Input(t, &in)
 	res := vh.NewResult()
 	defer res.Write(t)
 	zlog.SetLevel(zlog.LevelFatal)
+	suites := in.Suites
+	if len(suites) == 0 {
+		suites = []script{in.script}
+	}
+	scratch := filepath.Join(vh.Scratch(t), fmt.Sprintf("c09-%d", os.Getpid()))
+	if shm := "/dev/shm"; dirExists(shm) {
+		scratch = filepath.Join(shm, fmt.Sprintf("verif-c09-%d", os.Getpid()))
+	}
+	defer os.RemoveAll(scratch)
 
+	// suites are independent (own keys, own root, own directories): run a few side by side
+	sem := make(chan struct{}, 4)
+	var wg sync.WaitGroup
+	for i := range suites {
+		wg.Add(1)
+		sem <- struct{}{}
+		go func(i int) {
+			defer wg.Done()
+			defer func() { <-sem }()
+			runSuite(t, &suites[i], res, filepath.Join(scratch, fmt.Sprintf("s%d", i)))
+		}(i)
+	}
+	wg.Wait()
+}
+
+func runSuite(t *testing.T, sc *script, res *vh.Result, scratch string) {
 	if sc.KeyBudget == 0 {
 		sc.KeyBudget = 3000000
 	}
 	keys, tries, err := findKeys(&sc.Model, vh.Seed(), sc.KeyBudget)
 	if err != nil {
-		res.Skip("key search: %v", err)
+		res.Skip("suite %s: key search: %v", sc.Name, err)
 		return
 	}
 	res.Count("keygen_tries", tries)
 	rt, err := startRoot()
 	if err != nil {
-		t.Fatalf("scripted root: %v", err)
+		res.Skip("suite %s: scripted root: %v", sc.Name, err)
+		return
 	}
 	defer rt.stop()
 
-	r := &runner{t: t, sc: &sc, res: res, keys: keys, root: rt}
+	r := &runner{t: t, sc: sc, res: res, keys: keys, root: rt}
 	if sc.Forge {
 		r.forge = rand.New(rand.NewSource(vh.Seed() + 99))
 	}
 	if sc.TraceOut != "" {
 		f, err := os.Create(sc.TraceOut)
 		if err != nil {
-			t.Fatalf("trace file: %v", err)
+			res.Skip("suite %s: trace file: %v", sc.Name, err)
+			return
 		}
 		defer f.Close()
 		r.trace = bufio.NewWriter(f)
@@ -199,12 +231,7 @@ func TestReplay(t *testing.T) {
 	for n, k := range keys {
 		info[n] = map[string]int{"tag": int(k.Tag), "revtag": int(k.RevTag)}
 	}
-	res.Sample(map[string]any{"real_key_tags": info})
-	scratch := filepath.Join(vh.Scratch(t), fmt.Sprintf("c09-%d", os.Getpid()))
-	if shm := "/dev/shm"; dirExists(shm) {
-		scratch = filepath.Join(shm, fmt.Sprintf("verif-c09-%d", os.Getpid()))
-	}
-	defer os.RemoveAll(scratch)
+	res.Sample(map[string]any{"suite": sc.Name, "real_key_tags": info})
 	for i := range sc.Behaviours {
 		r.replay(&sc.Behaviours[i], filepath.Join(scratch, fmt.Sprintf("b%d", i)))
 	}
@@ -213,6 +240,21 @@ func TestReplay(t *testing.T) {
 func dirExists(p string) bool {
 	fi, err := os.Stat(p)
 	return err == nil && fi.IsDir()
+}
+
+// count books a counter for the whole run and for this suite.
+func (r *runner) count(name string, n int) {
+	r.res.Count(name, n)
+	if r.sc.Name != "" {
+		r.res.Count(r.sc.Name+":"+name, n)
+	}
+}
+
+func (r *runner) drift(format string, a ...any) {
+	if r.sc.Name != "" {
+		r.res.Count(r.sc.Name+":drift", 1)
+	}
+	r.res.DriftNote("["+r.sc.Name+"] "+format, a...)
 }
 
 func (r *runner) emit(ev *traceEvent) {
@@ -249,10 +291,10 @@ func (r *runner) violate(b *behaviour, upto int, pred, cause, what string) {
 	if cause != "" {
 		key += "/" + cause
 	}
-	r.res.Count("violations_"+pred, 1)
-	r.res.Violate(key, fmt.Sprintf("%s: %s [behaviour %s, step %d]", pred, what, b.ID, upto),
+	r.count("violations_"+pred, 1)
+	r.res.Violate(key, fmt.Sprintf("[%s] %s: %s [behaviour %s, step %d]", r.sc.Name, pred, what, b.ID, upto),
 		map[string]any{"model": r.sc.Model, "configured": r.sc.Configured, "ageCap": r.sc.AgeCap,
-			"behaviours": []behaviour{{ID: b.ID, Steps: b.Steps[:upto+1]}}, "forge": r.sc.Forge})
+			"behaviours": []behaviour{{ID: b.ID, Steps: b.Steps[:upto+1]}}, "forge": r.sc.Forge, "name": r.sc.Name})
 }
 
 func (r *runner) replay(b *behaviour, base string) {
@@ -264,10 +306,12 @@ func (r *runner) replay(b *behaviour, base string) {
 	e.dir = filepath.Join(base, "gen0")
 	keep := filepath.Join(base, "keep")
 	if err := os.MkdirAll(e.dir, 0o750); err != nil {
-		r.t.Fatalf("mkdir: %v", err)
+		r.res.Skip("mkdir: %v", err)
+		return
 	}
 	if err := os.MkdirAll(keep, 0o750); err != nil {
-		r.t.Fatalf("mkdir: %v", err)
+		r.res.Skip("mkdir: %v", err)
+		return
 	}
 	defer os.RemoveAll(base)
 	e.boot()
@@ -311,7 +355,7 @@ func (r *runner) replay(b *behaviour, base string) {
 				unr = makeUnreadable(e.tombPath(), keep)
 				o.sawUnreadable = true
 			} else {
-				r.res.DriftNote("behaviour %s step %d: tombstone file absent, cannot be made unreadable", b.ID, si)
+				r.drift("behaviour %s step %d: tombstone file absent, cannot be made unreadable", b.ID, si)
 				drifted = true
 			}
 		}
@@ -321,15 +365,16 @@ func (r *runner) replay(b *behaviour, base string) {
 
 		// ---- the run ---------------------------------------------------
 		var (
-			atFetch  []string
-			fetched  bool
-			snap     snapshot
-			blocks   []*blocked
-			w        *watcher
+			atFetch []string
+			fetched bool
+			snap    snapshot
+			blocks  []*blocked
+			w       *watcher
 		)
 		w, err := newWatcher(e.dir)
 		if err != nil {
-			r.t.Fatalf("inotify: %v", err)
+			r.res.Skip("inotify: %v", err)
+			return
 		}
 		hook := func() {
 			fetched = true
@@ -377,13 +422,13 @@ func (r *runner) replay(b *behaviour, base string) {
 		tombAfter := e.observeTomb()
 		lab := fmt.Sprintf("run(d=%d,rf=%s,%s,tf=%v,sf=%v,crash=%d)", st.D, st.RF, st.Fetch, st.TombFail, st.StateFail, st.Crash)
 		labels = append(labels, lab)
-		r.res.Count("runs", 1)
+		r.count("runs", 1)
 
 		// ---- crash: rebuild the directory the process would have left ----
 		landedTomb, landedState := tl.TombLanded, tl.StateLanded
 		if st.Crash >= 0 {
 			if fetched && len(tl.NotAtomic) > 0 {
-				r.res.DriftNote("behaviour %s step %d: %v not replaced atomically; crash state not constructible", b.ID, si, tl.NotAtomic)
+				r.drift("behaviour %s step %d: %v not replaced atomically; crash state not constructible", b.ID, si, tl.NotAtomic)
 				return
 			}
 			after := takeSnapshot(e.dir)
@@ -409,7 +454,7 @@ func (r *runner) replay(b *behaviour, base string) {
 			post.materialise(e.dir)
 			e.res = nil
 			down = true
-			r.res.Count("crashes", 1)
+			r.count("crashes", 1)
 			// what a process starting now would find
 			trustedAfter = []string{}
 			stateAfter = e.observeState()
@@ -507,10 +552,10 @@ func (r *runner) replay(b *behaviour, base string) {
 		r.res.Case(strings.Join(labels, ";"))
 		tr := toSet(trustedAfter)
 		if fetched && !tl.TombFirst {
-			r.res.DriftNote("behaviour %s step %d: state file replaced before the tombstones", b.ID, si)
+			r.drift("behaviour %s step %d: state file replaced before the tombstones", b.ID, si)
 		}
 		if fetched && len(tl.NotAtomic) > 0 {
-			r.res.DriftNote("behaviour %s step %d: %v written in place", b.ID, si, tl.NotAtomic)
+			r.drift("behaviour %s step %d: %v written in place", b.ID, si, tl.NotAtomic)
 		}
 		// TrustOnlyByRFC
 		for k := range tr {
@@ -545,13 +590,13 @@ func (r *runner) replay(b *behaviour, base string) {
 			}
 		}
 		if delivered && evaluable {
-			r.res.Count("refreshes_delivered", 1)
+			r.count("refreshes_delivered", 1)
 			if full {
-				r.res.Count("refreshes_full_auth", 1)
+				r.count("refreshes_full_auth", 1)
 			}
 			// UnauthenticatedChangesNothing
 			if !full && len(revSet) == 0 {
-				r.res.Count("refreshes_unauthenticated", 1)
+				r.count("refreshes_unauthenticated", 1)
 				same := sameList(trustedAfter, atFetch) && len(tl.Replaced) == 0 &&
 					mustJSON(stateAfter) == mustJSON(stateBefore) && mustJSON(tombAfter) == mustJSON(tombBefore)
 				if !same {
@@ -562,7 +607,7 @@ func (r *runner) replay(b *behaviour, base string) {
 			}
 			// RevokedOnlyRevokes
 			if !full && len(revSet) > 0 {
-				r.res.Count("refreshes_revocation_only", 1)
+				r.count("refreshes_revocation_only", 1)
 				bad := ""
 				if len(trustedAfter) > 0 {
 					for k := range tr {
@@ -597,7 +642,7 @@ func (r *runner) replay(b *behaviour, base string) {
 			}
 			// FailClosed (a): a new revocation neither write recorded
 			if len(revSet) > 0 && tl.Attempted && !tl.TombLanded && !tl.StateLanded {
-				r.res.Count("failclosed_double_write_failure", 1)
+				r.count("failclosed_double_write_failure", 1)
 				if len(trustedAfter) != 0 {
 					r.violate(b, si, "FailClosed", o.causeIgnored(sc, st, revSet), fmt.Sprintf(
 						"revocation of %v accepted, neither the tombstones nor the state file could be written, but rootKeys=%v instead of failing closed",
@@ -610,15 +655,16 @@ func (r *runner) replay(b *behaviour, base string) {
 					if revSet[k] || strings.Contains(k, "/") || strings.HasPrefix(k, "?") {
 						continue
 					}
-					owed := plain[k] || missAtPublish[k] < 0 || missAtPublish[k] <= 90
+					// whole days; the real clock is a positive instant further, so day 90 is past the hold-down
+					owed := plain[k] || missAtPublish[k] < 0 || missAtPublish[k] < 90
 					if !owed {
 						if !tr[k] {
-							r.res.Count("removed_after_holddown", 1)
+							r.count("removed_after_holddown", 1)
 						}
 						continue
 					}
 					if !plain[k] {
-						r.res.Count("missing_kept", 1)
+						r.count("missing_kept", 1)
 					}
 					closed := tl.Attempted && !tl.TombLanded && !tl.StateLanded && len(trustedAfter) == 0
 					if !tr[k] && !closed {
@@ -629,7 +675,7 @@ func (r *runner) replay(b *behaviour, base string) {
 					}
 					if plain[k] && tl.StateLanded && stateAfter.Kind == "ok" {
 						if was, ok := stateBefore.M[k]; ok && was.St == "Missing" {
-							r.res.Count("reappeared", 1)
+							r.count("reappeared", 1)
 						}
 						if en, ok := stateAfter.M[k]; ok && en.St != "Valid" {
 							r.violate(b, si, "ReappearRestores", "", fmt.Sprintf(
@@ -639,11 +685,11 @@ func (r *runner) replay(b *behaviour, base string) {
 				}
 			}
 		} else if delivered {
-			r.res.Count("runs_unevaluable", 1)
+			r.count("runs_unevaluable", 1)
 		}
 		// FailClosed (b): undecodable tombstone store
 		if tombBefore.Kind == "corrupt" {
-			r.res.Count("failclosed_corrupt_tombstones", 1)
+			r.count("failclosed_corrupt_tombstones", 1)
 			if len(trustedAfter) != 0 {
 				r.violate(b, si, "FailClosed", "corrupt-tombstones", fmt.Sprintf(
 					"the tombstone store was undecodable but rootKeys=%v (before: %v)", trustedAfter, trustedBefore))
@@ -651,18 +697,18 @@ func (r *runner) replay(b *behaviour, base string) {
 		}
 		for k := range o.earned {
 			if tr[k] {
-				r.res.Count("earned_trusted", 1)
+				r.count("earned_trusted", 1)
 			}
 		}
 		if len(o.revAcc) > 0 {
-			r.res.Count("quiescent_with_recorded_revocation", 1)
+			r.count("quiescent_with_recorded_revocation", 1)
 		}
 
 		// ---- drift against the model's prediction -----------------------------
 		if st.Exp != nil && !drifted {
 			if d := r.diff(st.Exp, atFetch, fetched, trustedAfter, stateAfter, tombAfter); d != "" {
 				drifted = true
-				r.res.DriftNote("behaviour %s step %d (%s): %s", b.ID, si, lab, d)
+				r.drift("behaviour %s step %d (%s): %s", b.ID, si, lab, d)
 			}
 		}
 	}
